@@ -734,6 +734,14 @@ pub fn search<H: Harness>(h: &H, opts: &Opts, wrap: &(dyn Fn(&mut (dyn FnMut() +
         let _ = std::fs::create_dir_all(&opts.replay_dir);
         let fname = format!("{}-{}-{:016x}.json", h.property(), h.name(), final_rec.digest.0);
         let path = opts.replay_dir.join(fname);
+        let original_case_value = {
+            let v = serde_json::to_value(&case).unwrap();
+            if serde_json::to_string(&v).map(|s| s.len()).unwrap_or(0) > 200_000 {
+                json!("(omitted: large; regenerate from case_seed)")
+            } else {
+                v
+            }
+        };
         let doc = json!({
             "property": h.property(),
             "check": h.name(),
@@ -746,7 +754,7 @@ pub fn search<H: Harness>(h: &H, opts: &Opts, wrap: &(dyn Fn(&mut (dyn FnMut() +
             "violation": final_v,
             "digest": format!("{:016x}", final_rec.digest.0),
             "case": serde_json::to_value(&final_case).unwrap(),
-            "original_case": serde_json::to_value(&case).unwrap(),
+            "original_case": original_case_value,
             "events": final_rec.events.clone().unwrap_or_default(),
         });
         if let Err(e) = std::fs::write(&path, serde_json::to_string_pretty(&doc).unwrap()) {
